@@ -41,9 +41,9 @@ inductive PC where
 
 inductive HPC where
   | idle
-  | have (t : Tid) (w : Bool)     -- hold received, before `lock<-`
-  | slot (t : Tid) (w : Bool)     -- slot taken, before the section
-  | wait (t : Tid)                -- writer: grace goroutines launched, in wg.Wait()
+  | have (t : Tid) (g : Nat) (w : Bool)   -- hold received, before `lock<-`
+  | slot (t : Tid) (g : Nat) (w : Bool)   -- slot taken, before the section
+  | wait (t : Tid) (g : Nat)              -- writer: grace goroutines launched, in wg.Wait()
   | rel (t : Tid)                 -- reader answered, before `<-lock`
   | exiting                       -- loop left, deferred launch pending
   | dead
@@ -61,7 +61,9 @@ structure State where
   now : Nat
   closed : Bool
   runCancelled : Bool
-  chBuf : Option (Tid × Bool)
+  gen : Nat → Nat                   -- number of Lock/RLock calls of the caller so far: a hold request
+                                    -- `(t, gen t, write?)` carries its own answer channel, fresh per call
+  chBuf : Option (Tid × Nat × Bool)
   slot : Option Tid
   shut : Option Tid
   hpc : HPC
@@ -84,10 +86,16 @@ inductive Probe where
 abbrev L := Lbl Op Nat Probe Env
 
 def init (n grace : Nat) : State :=
-  { n := n, grace := grace, now := 0, closed := false, runCancelled := false, chBuf := none,
+  { n := n, grace := grace, now := 0, closed := false, runCancelled := false, gen := fun _ => 0, chBuf := none,
     slot := none, shut := none, hpc := .idle, live := fun _ => false, told := fun _ => none,
     parentDone := fun _ => false, graces := fun _ => none, resp := fun _ => none,
     pcs := fun _ => .idle }
+
+/-- The handler's answer `h.respCh <- resp` for hold `(t, g)`: it reaches the caller only if that
+hold is the caller's current one (otherwise the channel belongs to an abandoned call — possible
+only after shutdown — and nobody ever reads it). -/
+def deliver (s : State) (t : Tid) (g : Nat) (err : Bool) : Nat → Option Bool :=
+  if g = s.gen t then upd s.resp t (some err) else s.resp
 
 def noLive (s : State) : Bool := (List.range s.n).all fun t => !s.live t
 
@@ -104,13 +112,15 @@ def stepCore (s : State) : L → Option State
   | .call t .lock =>
     if t < s.n then
       match s.pcs t with
-      | .idle => some { s with pcs := upd s.pcs t .wCalled, resp := upd s.resp t none }
+      | .idle => some { s with pcs := upd s.pcs t .wCalled, resp := upd s.resp t none,
+                               gen := upd s.gen t (s.gen t + 1) }
       | _ => none
     else none
   | .call t (.rlock pre) =>
     if t < s.n then
       match s.pcs t with
       | .idle => some { s with pcs := upd s.pcs t .rCalled, resp := upd s.resp t none,
+                               gen := upd s.gen t (s.gen t + 1),
                                parentDone := upd s.parentDone t pre, told := upd s.told t none }
       | _ => none
     else none
@@ -130,7 +140,7 @@ def stepCore (s : State) : L → Option State
     | .wCalled =>
       if alt = 0 then (if s.closed then some { s with pcs := upd s.pcs t .wShut } else none)
       else match s.chBuf with
-        | none => some { s with chBuf := some (t, true), pcs := upd s.pcs t .wSent }
+        | none => some { s with chBuf := some (t, s.gen t, true), pcs := upd s.pcs t .wSent }
         | some _ => none
     | .wSent =>
       if alt = 0 then (if s.closed then some { s with pcs := upd s.pcs t .wShut } else none)
@@ -153,7 +163,7 @@ def stepCore (s : State) : L → Option State
       if alt = 0 then (if s.closed then some { s with pcs := upd s.pcs t .rErr } else none)
       else if alt = 1 then (if s.parentDone t then some { s with pcs := upd s.pcs t .rErr } else none)
       else match s.chBuf with
-        | none => some { s with chBuf := some (t, false), pcs := upd s.pcs t .rSent }
+        | none => some { s with chBuf := some (t, s.gen t, false), pcs := upd s.pcs t .rSent }
         | some _ => none
     | .rSent =>
       if alt = 0 then (if s.closed then some { s with pcs := upd s.pcs t .rErr } else none)
@@ -177,24 +187,24 @@ def stepCore (s : State) : L → Option State
     | .idle =>
       if alt = 0 then (if s.closed then some { s with hpc := .exiting } else none)
       else match s.chBuf with
-        | some (t, w) => some { s with chBuf := none, hpc := .have t w }
+        | some (t, g, w) => some { s with chBuf := none, hpc := .have t g w }
         | none => none
-    | .have t w =>
+    | .have t g w =>
       if alt = 0 then
         match s.slot with
-        | none => some { s with slot := some t, hpc := .slot t w }
+        | none => some { s with slot := some t, hpc := .slot t g w }
         | some _ => none
-      else if !w && s.parentDone t then some { s with resp := upd s.resp t (some true), hpc := .idle }
+      else if !w && s.parentDone t then some { s with resp := deliver s t g true, hpc := .idle }
       else none
-    | .slot t true =>          -- writer section: launch every reader's graceful cancel
-      some { s with graces := launchAll s false, hpc := .wait t }
-    | .slot t false =>         -- reader section: wg.Add, register, answer
+    | .slot t g true =>        -- writer section: launch every reader's graceful cancel
+      some { s with graces := launchAll s false, hpc := .wait t g }
+    | .slot t g false =>       -- reader section: wg.Add, register, answer
       -- (a grace goroutine left over from an earlier, finished registration of this caller can
       -- only run a no-op rcancel: it is dropped here)
       some { s with live := upd s.live t true, graces := upd s.graces t none,
-                    resp := upd s.resp t (some false), hpc := .rel t }
-    | .wait t =>               -- wg.Wait(); answer; the slot stays taken
-      if noLive s then some { s with resp := upd s.resp t (some false), hpc := .idle } else none
+                    resp := deliver s t g false, hpc := .rel t }
+    | .wait t g =>             -- wg.Wait(); answer; the slot stays taken
+      if noLive s then some { s with resp := deliver s t g false, hpc := .idle } else none
     | .rel _ =>                -- <-o.lock
       match s.slot with
       | some _ => some { s with slot := none, hpc := .idle }
@@ -267,7 +277,7 @@ def taus (s : State) : List L :=
 
 instance : BEq State where
   beq a b := a.n == b.n && a.grace == b.grace && a.now == b.now && a.closed == b.closed &&
-    a.runCancelled == b.runCancelled && a.chBuf == b.chBuf && a.slot == b.slot && a.shut == b.shut &&
+    a.runCancelled == b.runCancelled && eqUpTo a.n a.gen b.gen && a.chBuf == b.chBuf && a.slot == b.slot && a.shut == b.shut &&
     a.hpc == b.hpc && eqUpTo a.n a.live b.live && eqUpTo a.n a.told b.told &&
     eqUpTo a.n a.parentDone b.parentDone && eqUpTo a.n a.graces b.graces &&
     eqUpTo a.n a.resp b.resp && eqUpTo a.n a.pcs b.pcs
